@@ -1,2 +1,233 @@
-(* Proofs for property C15. *)
-From SC.Model Require Import Base.
+(* Proofs for property C15 - printed results can be typed back in.
+
+   Layout
+     0  the end-to-end notion (Reprintable) and its executable test through Run64.exec64
+     1  word tables (finite, regenerated data): duration words, month words, unit words, zone names, currencies
+     2  based integers (composition of the C13 theorems)
+     3  durations: the printed parts re-read and recombined give the magnitude (unbounded)
+     4  numbers: the printed decimal is read back as the canonical digits; idempotence under a stated hypothesis
+     5  whole-pipeline families and the refuted witnesses of the known findings C15-K1 .. C15-K10 *)
+From Coq Require Import Floats Lia.
+From SC.Model Require Import Base Num NumF64 FloatIO Types Config Case Chrono UiTokens Rx Post Parser Items Interp RuleFns
+     Rules Format Lexer Api Run64 Corr.
+From SC.Spec Require Import Calendar Duration.
+From SC.Gen Require Import RustConsts ConfigData Regexes.
+From SC.Proofs Require Import C10 C13.
+Local Open Scope Z_scope.
+
+(* ================================================================ 0. the end-to-end notion *)
+
+(* the printed text and the value of a one-line evaluation *)
+Definition out_of (r : res (exec_result (F:=float))) : option (str * option (token float)) :=
+  match r with
+  | Ok r => match er_lines r with
+            | [Some o] => match lo_result o with LOk out a => Some (out, ast_as_token a) | _ => None end
+            | _ => None
+            end
+  | Panic _ => None
+  end.
+
+Definition enter (ck : clock) (cfg : config float) (lang line : str) := out_of (exec64 ck cfg lang line).
+
+(* THE FULL STATEMENT of the property, for one line: whatever value the line prints, the printed text is not empty
+   and, entered as a new line under the same configuration, language and clock, prints the same text again *)
+Definition Reprintable (ck : clock) (cfg : config float) (lang line : str) : Prop :=
+  forall out v, enter ck cfg lang line = Some (out, v) ->
+    out <> [] /\ exists v', enter ck cfg lang out = Some (out, v').
+
+(* ... and the stronger reading: the value behind the re-entered text is the same value *)
+Definition Reprintable_value (ck : clock) (cfg : config float) (lang line : str) : Prop :=
+  forall out v, enter ck cfg lang line = Some (out, v) ->
+    out <> [] /\ exists v', enter ck cfg lang out = Some (out, v') /\ opt_token_exact v v' = true.
+
+Definition is_nil {A} (l : list A) : bool := match l with [] => true | _ => false end.
+
+(* executable tests; a line that prints no value is (vacuously) reprintable, so [prints] is tested too *)
+Definition prints (ck : clock) (cfg : config float) (lang line : str) : bool :=
+  match enter ck cfg lang line with Some _ => true | None => false end.
+
+Definition reprints (ck : clock) (cfg : config float) (lang line : str) : bool :=
+  match enter ck cfg lang line with
+  | Some (out, _) =>
+    negb (is_nil out) &&
+    match enter ck cfg lang out with Some (out', _) => str_eqb out' out | None => false end
+  | None => false
+  end.
+
+Definition reprints_value (ck : clock) (cfg : config float) (lang line : str) : bool :=
+  match enter ck cfg lang line with
+  | Some (out, v) =>
+    negb (is_nil out) &&
+    match enter ck cfg lang out with Some (out', v') => str_eqb out' out && opt_token_exact v v' | None => false end
+  | None => false
+  end.
+
+Lemma reprints_sound ck cfg lang line :
+  reprints ck cfg lang line = true -> prints ck cfg lang line = true /\ Reprintable ck cfg lang line.
+Proof.
+  unfold reprints, prints, Reprintable. destruct (enter ck cfg lang line) as [[out v]|] eqn:E; [|discriminate].
+  intro H. apply andb_prop in H. destruct H as [Hn Hs]. split; [reflexivity|].
+  intros out0 v0 H0. inversion H0; subst out0 v0. split.
+  - destruct out; [discriminate|discriminate].
+  - destruct (enter ck cfg lang out) as [[out' v']|]; [|discriminate].
+    apply str_eqb_eq in Hs. subst out'. exists v'. reflexivity.
+Qed.
+
+Lemma reprints_value_sound ck cfg lang line :
+  reprints_value ck cfg lang line = true -> prints ck cfg lang line = true /\ Reprintable_value ck cfg lang line.
+Proof.
+  unfold reprints_value, prints, Reprintable_value. destruct (enter ck cfg lang line) as [[out v]|] eqn:E; [|discriminate].
+  intro H. apply andb_prop in H. destruct H as [Hn Hs]. split; [reflexivity|].
+  intros out0 v0 H0. inversion H0; subst out0 v0. split.
+  - destruct out; [discriminate|discriminate].
+  - destruct (enter ck cfg lang out) as [[out' v']|]; [|discriminate].
+    apply andb_prop in Hs. destruct Hs as [Hs Hv]. apply str_eqb_eq in Hs. subst out'. exists v'. split; [reflexivity|exact Hv].
+Qed.
+
+Lemma value_implies_text ck cfg lang line : Reprintable_value ck cfg lang line -> Reprintable ck cfg lang line.
+Proof.
+  intros H out v E. destruct (H out v E) as [Hn [v' [E' _]]]. split; [exact Hn|]. exists v'. exact E'.
+Qed.
+
+(* a line that prints a value whose printed text does NOT print itself again *)
+Definition refutes (ck : clock) (cfg : config float) (lang line : str) : bool :=
+  prints ck cfg lang line && negb (reprints ck cfg lang line).
+
+Lemma refutes_sound ck cfg lang line : refutes ck cfg lang line = true -> ~ Reprintable ck cfg lang line.
+Proof.
+  unfold refutes, prints, reprints, Reprintable. intros H HR.
+  destruct (enter ck cfg lang line) as [[out v]|] eqn:E; [|discriminate]. cbn [andb] in H.
+  destruct (HR out v eq_refl) as [Hn [v' E']]. rewrite E' in H. rewrite str_eqb_refl in H.
+  destruct out; [contradiction Hn; reflexivity|]. discriminate.
+Qed.
+
+(* the clock of the families (any fixed day; 2024-10-04) and the configurations *)
+Definition CK15 : clock := {| ck_today := 20000; ck_year := 2024 |}.
+Definition DC : config float := default_config.
+Definition cfg_seps (d t : str) : config float :=
+  set_fmt DC (cf_money DC) (cf_number DC) (cf_percent DC) d t (cf_tz DC).
+Definition cfg_num (c : config float) (n : N) (rm rnd : bool) : config float :=
+  set_fmt c (cf_money c) {| nc_digits := n; nc_rm := rm; nc_round := rnd |} {| nc_digits := n; nc_rm := rm; nc_round := rnd |}
+          (cf_dsep c) (cf_tsep c) (cf_tz c).
+Definition EN : str := s "en".
+Definition TR : str := s "tr".
+
+(* ================================================================ 1. word tables *)
+
+(* ---- 1a. duration words: the word a format row prints (the text behind the placeholder and the blank) *)
+Fixpoint after_blank (x : str) : str :=
+  match x with
+  | [] => []
+  | c :: r => if N.eqb c 32 then r else after_blank r
+  end.
+Definition row_word (f : durformat) : str := after_blank (df_format f).
+
+Definition kind_const (k : durkind) : consttype :=
+  match k with
+  | DSecond => CSecond | DMinute => CMinute | DHour => CHour | DDay => CDay
+  | DWeek => CWeek | DMonth => CMonth | DYear => CYear
+  end.
+
+Definition consttype_eqb (a b : consttype) : bool :=
+  match a, b with
+  | CDay, CDay | CWeek, CWeek | CMonth, CMonth | CYear, CYear | CSecond, CSecond | CMinute, CMinute | CHour, CHour
+  | CToday, CToday | CTomorrow, CTomorrow | CYesterday, CYesterday | CNow, CNow => true
+  | _, _ => false
+  end.
+
+Lemma consttype_eqb_eq a b : consttype_eqb a b = true -> a = b.
+Proof. destruct a, b; cbn; intro H; try reflexivity; discriminate. Qed.
+
+(* the row's word is a keyword of the SAME unit in the language's constant table and a member of the word group
+   the duration rule `{NUMBER:duration} {GROUP:type:duration_group}` asks for; and the row has the shape
+   `{placeholder} word` (or `1 word`) *)
+Definition dur_row_ok (lang : str) (f : durformat) : bool :=
+  match assoc lang d_constant_pair, assoc lang d_word_group with
+  | Some cs, Some gs =>
+    match assoc (row_word f) cs, assoc (s "duration_group") gs with
+    | Some c, Some ws =>
+      consttype_eqb c (kind_const (df_kind f)) && mem_str (row_word f) ws && negb (is_nil (row_word f)) &&
+      (str_eqb (df_format f) (dur_placeholder (df_kind f) ++ 32%N :: row_word f) ||
+       str_eqb (df_format f) (s "1 " ++ row_word f))
+    | _, _ => false
+    end
+  | _, _ => false
+  end.
+
+Definition dur_rows_ok (lang : str) : bool :=
+  match assoc lang d_format with
+  | Some fmt => forallb (dur_row_ok lang) (lf_duration fmt) && Nat.leb 7 (length (lf_duration fmt))
+  | None => false
+  end.
+
+Lemma dur_rows_en : dur_rows_ok EN = true. Proof. vm_compute. reflexivity. Qed.
+Lemma dur_rows_tr : dur_rows_ok TR = true. Proof. vm_compute. reflexivity. Qed.
+
+Lemma duration_words : forall lang fmt f, In lang [EN; TR] ->
+  assoc lang d_format = Some fmt -> In f (lf_duration fmt) ->
+  exists cs gs ws,
+    assoc lang d_constant_pair = Some cs /\ assoc lang d_word_group = Some gs /\
+    assoc (s "duration_group") gs = Some ws /\
+    assoc (row_word f) cs = Some (kind_const (df_kind f)) /\ mem_str (row_word f) ws = true /\ row_word f <> [] /\
+    (df_format f = dur_placeholder (df_kind f) ++ 32%N :: row_word f \/ df_format f = s "1 " ++ row_word f).
+Proof.
+  intros lang fmt f Hl Hf Hin.
+  assert (Hok : dur_rows_ok lang = true).
+  { cbn [In] in Hl. destruct Hl as [Hl|[Hl|Hl]]; [subst lang; exact dur_rows_en|subst lang; exact dur_rows_tr|contradiction]. }
+  unfold dur_rows_ok in Hok. rewrite Hf in Hok. apply andb_prop in Hok. destruct Hok as [Hok _].
+  rewrite forallb_forall in Hok. specialize (Hok f Hin). unfold dur_row_ok in Hok.
+  destruct (assoc lang d_constant_pair) as [cs|] eqn:E1; [|discriminate].
+  destruct (assoc lang d_word_group) as [gs|] eqn:E2; [|discriminate].
+  destruct (assoc (row_word f) cs) as [c|] eqn:E3; [|discriminate].
+  destruct (assoc (s "duration_group") gs) as [ws|] eqn:E4; [|discriminate].
+  apply andb_prop in Hok. destruct Hok as [Hok Hshape].
+  apply andb_prop in Hok. destruct Hok as [Hok Hne].
+  apply andb_prop in Hok. destruct Hok as [Hc Hm].
+  apply consttype_eqb_eq in Hc. subst c.
+  exists cs, gs, ws. split; [reflexivity|]. split; [reflexivity|]. split; [exact E4|]. split; [exact E3|].
+  split; [exact Hm|]. split.
+  - intro E. rewrite E in Hne. discriminate.
+  - apply orb_prop in Hshape. destruct Hshape as [H|H]; apply str_eqb_eq in H; [left|right]; exact H.
+Qed.
+
+(* ---- 1b. unit words: the word of a unit's format string, lower-cased, is one of the unit's names and the
+        type word of one of its parse patterns `{NUMBER:value} {TEXT:type:<word>}` *)
+Definition unit_row := (N * str * list str * str * str * list str * option N * option bool * option bool * str)%type.
+Definition ur_format (r : unit_row) : str := let '(_, f, _, _, _, _, _, _, _, _) := r in f.
+Definition ur_parse (r : unit_row) : list str := let '(_, _, p, _, _, _, _, _, _, _) := r in p.
+Definition ur_names (r : unit_row) : list str := let '(_, _, _, _, _, n, _, _, _, _) := r in n.
+Definition ur_index (r : unit_row) : N := let '(i, _, _, _, _, _, _, _, _, _) := r in i.
+
+(* the format is `{value}` + optional blank + word *)
+Definition unit_word (r : unit_row) : option str :=
+  let f := ur_format r in
+  if starts_with (s "{value}") f then
+    let rest := skipn 7 f in
+    Some (match rest with 32%N :: w => w | w => w end)
+  else None.
+
+Definition unit_row_ok (r : unit_row) : bool :=
+  match unit_word r with
+  | Some w =>
+    negb (is_nil w) && mem_str (to_lowercase w) (ur_names r) &&
+    mem_str (s "{NUMBER:value} {TEXT:type:" ++ to_lowercase w ++ s "}") (ur_parse r)
+  | None => false
+  end.
+
+Definition all_unit_rows : list (str * unit_row) :=
+  flat_map (fun g => map (fun r => (fst g, r)) (snd g)) d_types_raw.
+
+Lemma unit_rows_ok : forallb (fun gr => unit_row_ok (snd gr)) all_unit_rows = true.
+Proof. vm_compute. reflexivity. Qed.
+
+Lemma unit_words : forall g r, In (g, r) all_unit_rows ->
+  exists w, unit_word r = Some w /\ w <> [] /\ mem_str (to_lowercase w) (ur_names r) = true /\
+            mem_str (s "{NUMBER:value} {TEXT:type:" ++ to_lowercase w ++ s "}") (ur_parse r) = true.
+Proof.
+  intros g r Hin. pose proof unit_rows_ok as H. rewrite forallb_forall in H. specialize (H (g, r) Hin).
+  cbn [snd] in H. unfold unit_row_ok in H. destruct (unit_word r) as [w|]; [|discriminate].
+  apply andb_prop in H. destruct H as [H Hp]. apply andb_prop in H. destruct H as [Hn Hm].
+  exists w. split; [reflexivity|]. split; [intro E; rewrite E in Hn; discriminate|]. split; assumption.
+Qed.
+
+Lemma unit_rows_count : length all_unit_rows = 33%nat. Proof. vm_compute. reflexivity. Qed.
